@@ -286,6 +286,9 @@ func (c *Ctx) Finish() {
 type Budget struct {
 	CPU   time.Duration
 	Alloc uint64
+	// PanicNotJudged: a panic is recorded in the evidence counters but is not a violation of this
+	// property (totality is C07/C08/C19's business; elsewhere a panic only means "not accepted").
+	PanicNotJudged bool
 }
 
 // Measured is what a guarded call cost.
@@ -303,7 +306,9 @@ func threadCPU() int64 {
 	if err := syscall.Getrusage(rusageThread, &ru); err != nil {
 		return 0
 	}
-	return ru.Utime.Nano() + ru.Stime.Nano()
+	// user time only: under memory pressure the kernel charges direct reclaim to the faulting thread as
+	// system time, which has nothing to do with the code under test (seen: 30 s charged to a sub-ms call)
+	return ru.Utime.Nano()
 }
 
 func procCPU() int64 {
@@ -311,7 +316,7 @@ func procCPU() int64 {
 	if err := syscall.Getrusage(0, &ru); err != nil {
 		return 0
 	}
-	return ru.Utime.Nano() + ru.Stime.Nano()
+	return ru.Utime.Nano()
 }
 
 func heapAllocs() uint64 {
@@ -351,7 +356,11 @@ func (c *Ctx) Guard(i int, entry, gen string, b Budget, f func()) Measured {
 	c.caseStartCPU.Store(0)
 	c.Eval(1)
 	if m.Panicked {
-		c.Violate(Violation{Kind: "panic", Entry: entry, Site: m.Site, Gen: gen, Case: i, Detail: m.PanicMsg})
+		if b.PanicNotJudged {
+			c.Count("panic-observed-not-judged-here/"+entry+"@"+m.Site, 1)
+		} else {
+			c.Violate(Violation{Kind: "panic", Entry: entry, Site: m.Site, Gen: gen, Case: i, Detail: m.PanicMsg})
+		}
 	}
 	if b.CPU > 0 && m.CPU > b.CPU {
 		c.Violate(Violation{Kind: "budget-cpu", Entry: entry, Site: entry, Gen: gen, Case: i,
